@@ -14,7 +14,6 @@ import (
 	"fmt"
 	"io"
 	"os"
-	"sort"
 	"strings"
 	"time"
 
@@ -32,9 +31,9 @@ type Val struct {
 	S string `json:"s,omitempty"`
 }
 
-func VNull() Val         { return Val{K: 0} }
-func VInt(i int64) Val   { return Val{K: 1, I: i} }
-func VStr(s string) Val  { return Val{K: 2, S: s} }
+func VNull() Val           { return Val{K: 0} }
+func VInt(i int64) Val     { return Val{K: 1, I: i} }
+func VStr(s string) Val    { return Val{K: 2, S: s} }
 func (v Val) IsNull() bool { return v.K == 0 }
 
 func (v Val) SQL() string {
@@ -443,15 +442,6 @@ func historyValues(evs []Event) []Val {
 	return out
 }
 
-func idxOf(rows []TRow, id int64) int {
-	for i, r := range rows {
-		if r.ID == id {
-			return i
-		}
-	}
-	return 0
-}
-
 // indexPrefix returns the key prefix of the primary index (primary=true) or of the UNIQUE index on v
 // extended with the encoded value x.
 func (v *env) indexPrefix(primary bool, x Val) []byte {
@@ -522,8 +512,8 @@ const (
 )
 
 type checker struct {
-	cfg     Cfg
-	unique  bool                      // a UNIQUE index on v has been created
+	cfg    Cfg
+	unique bool // a UNIQUE index on v has been created
 	// firstIsTomb reports whether the first entry under the primary-index prefix (primary=true) or
 	// under the unique index's prefix for value v is a tombstone, read from the store without filters
 	firstIsTomb func(primary bool, v Val) bool
@@ -855,13 +845,4 @@ func Replay(r *vk.Run, c map[string]any) error {
 		return err
 	}
 	return emit(r, x.Cfg, x.Events, "replay")
-}
-
-func sortedKeys(m map[string]int) []string {
-	ks := make([]string, 0, len(m))
-	for k := range m {
-		ks = append(ks, k)
-	}
-	sort.Strings(ks)
-	return ks
 }
